@@ -27,13 +27,23 @@ def run(chk):
     quick = chk.tier == "quick"
     rnd = random.Random(chk.seed + 17)
     env = {"MAXW": 8, "MAXWDIV": 4 if quick else 8, "MAXWUNIQ": 3 if quick else 4}
-    res = lib.tlc("BitOpsAlg", "MC_BitOpsAlg_arith.cfg", env=env, workers=8 if quick else 12,
+    res = lib.tlc("BitOpsAlg", "MC_BitOpsAlg_arith.cfg", env=env, workers=bc.workers(8 if quick else 12),
                   timeout=600 if quick else 6000, coverage=False)
     chk.add_tlc(res, "design")
     if not res.ok:
         chk.violation({"level": "design", "invariant": res.violated}, {"tlc": res.trace[-4000:]})
     chk.note("design", {"all_pairs_widths": "1..8", "division_identity_widths": "1..%d" % env["MAXWDIV"],
                         "identity_uniqueness_widths": "1..%d" % env["MAXWUNIQ"]})
+
+    # long division with a divisor of another width than the dividend (the documentation gives the remainder the
+    # divisor's length): algorithm vs definition for all operands of widths {2,4,8} x {2,4,8}, signed and unsigned
+    for sg in (1, 0):
+        rm = lib.tlc("BitOpsAlg", "MC_BitOpsAlg_divmixed.cfg", env={"MAXW": 8, "SG": sg}, workers=bc.workers(4), timeout=600, coverage=False)
+        chk.add_tlc(rm, "design_divmixed_sg%d" % sg)
+        if not rm.ok:
+            ex = lib.printed_json(rm, "DIVMIXED")[:3]
+            chk.violation({"level": "design", "op": "div", "mixed_widths": True, "signed": sg, "invariant": rm.violated},
+                          {"examples (unsigned reading of the bit patterns; alg/def = <<quotient, remainder>>)": ex})
 
     jobs = []
 
@@ -97,6 +107,15 @@ def run(chk):
             add({"op": "div", "sg": sg, "w": w, "a": a, "b": d})
     for w in (3, 6, 12):
         add({"op": "div", "sg": 0, "w": w, "a": ["1"], "b": ["1"]})
+    # dividend and divisor of different widths: all operand pairs for the small combinations, sampled for 16/8
+    for w, wb in ((4, 2), (2, 4), (8, 4), (4, 8), (8, 2), (2, 8), (16, 8), (8, 16)):
+        if w + wb <= 12:
+            pairs = [(a, d) for a in range(1 << w) for d in range(1, 1 << wb)]
+        else:
+            pairs = [(a, d) for a in bc.boundary(w) + [rnd.getrandbits(w) for _ in range(20)]
+                     for d in [x for x in bc.boundary(wb) if x] + [rnd.getrandbits(wb) or 1 for _ in range(6)]]
+        for sg in (0, 1):
+            add({"op": "div", "sg": sg, "w": w, "wb": wb, "a": [bc.s(p[0]) for p in pairs], "b": [bc.s(p[1]) for p in pairs]})
     for sg in (0, 1):
         add({"op": "div", "sg": sg, "w": 1, "a": ["1", "0"], "b": ["1", "1"]})  # degenerate width: value or error
     # ---- broadcasting (row shapes without the bit dimension)
@@ -135,7 +154,7 @@ def run(chk):
                  "x1": [bc.s(rnd.choice(pool)) for _ in range(prod(s1))],
                  "x0": [bc.s(rnd.choice(pool)) for _ in range(prod(s0))]})
 
-    recs, bad = bc.run_ops(chk, jobs, "arith", workers=4 if quick else 8, timeout=1500 if quick else 6000)
+    recs, bad = bc.run_ops(chk, jobs, "arith", workers=bc.workers(4 if quick else 8), timeout=1500 if quick else 6000)
     r1 = [recs[i]["out"] for i in rank1_div]
     chk.note("long_division_of_rank1_bitstrings", {"outcomes": sorted(set(r1)),
              "remark": "operands of shape [w] (no row dimension): the library returns an error; counted as an observation, not judged"})
@@ -143,10 +162,12 @@ def run(chk):
     for rec, v in bad:
         if rec["op"] == "mux":
             sig = {"op": "mux", "choices": "bit" if rec["st"] == "b" else "integer", "why": v["why"]}
+        elif rec["op"] == "div" and rec["wb"] != rec["w"]:
+            sig = {"op": "div", "signed": rec["sg"], "mixed_widths": True, "why": v["why"]}
         else:
             sig = {"op": rec["op"], "flag": rec["sg"], "w": rec["w"], "k": rec["k"], "why": v["why"]}
-        chk.violation(sig, {"verdict": v, "case": bc.small(rec, v["idx"]),
-                            "job": jobs[rec["id"]] if not jobs[rec["id"]].get("exh") else {"exh": True}})
+        chk.violation(sig, {"cmd": "ops", "jobs_file": chk.path("jobs_arith.ndjson"), "job_id": rec["id"], "verdict": v, "case": bc.small(rec, v["idx"]),
+                            "job": {k: (v if not isinstance(v, list) or len(v) <= 24 else "%d values (seed %d)" % (len(v), chk.seed)) for k, v in jobs[rec["id"]].items()}})
     per_op = {}
     for r in recs:
         d = per_op.setdefault(r["op"], {"batches": 0, "elements": 0, "exhaustive_elements": 0, "errors_expected": 0})
@@ -165,8 +186,15 @@ def run(chk):
                         "quotient": r["r"][170], "remainder": r["r2"][170], "encoding": "unsigned reading of the bit pattern"})
         if r["out"] == "ok" and r["op"] == "add" and r["w"] == 8 and r["sg"] == 1 and r.get("exh") == 1:
             chk.sample({"op": "add", "w": 8, "a": r["a"][65535], "b": r["b"][65535], "sum": r["r"][65535], "carry": r["r2"][65535]})
+    if not chk.samples:
+        r = recs[0]
+        chk.sample({"op": r["op"], "w": r["w"], "a": r["a"][:4], "b": r["b"][:4], "result": r["r"][:4]})
     chk.assumptions += [
         "division results are w-bit patterns: signed min / -1 wraps to min (quotient not representable), as NumPy does",
         "division by zero is outside the property (excluded from judgement)",
         "1-bit long division: the library may return a value or an error",
     ]
+
+
+def replay(path):
+    return bc.replay(path)
